@@ -104,5 +104,7 @@ def cmp(src):
     except Err as ex: e = None
     try: r = real(src)
     except LexerError: r = None
+    except Exception as ex:      # anything else escaping the lexer is an internal error, never a legitimate outcome
+        r = 'INTERNAL %s: %s' % (type(ex).__name__, ex)
     if (e is None) != (r is None) or (e is not None and e != r):
         return (src, e, r)
